@@ -465,6 +465,19 @@ class CFG:
                 out.append(b)
         return out
 
+    def control_deps_closure(self, n, ignore_loop_conditions=True):
+        out = []
+        seen = set()
+        work = [n]
+        while work:
+            x = work.pop()
+            for b in self.control_deps(x, ignore_loop_conditions):
+                if b.id not in seen:
+                    seen.add(b.id)
+                    out.append(b)
+                    work.append(b)
+        return out
+
     def _is_loop_condition(self, b):
         # a branch whose evaluation belongs to a loop header: reached from a loophead through joins/calls only
         for h in self.events(('loophead',)):
@@ -519,3 +532,21 @@ def cfg_of(fn):
 
 def clear_cache():
     _cfg_cache.clear()
+
+
+def enumerate_paths(c, limit=400):
+    """all acyclic entry->exit paths (back edges are not followed) as lists of (node, label-taken-to-leave-it)."""
+    out = []
+
+    def rec(n, acc, seen):
+        if len(out) >= limit:
+            return
+        if n is c.exit:
+            out.append(acc)
+            return
+        for s, lab in n.succ:
+            if lab == 'back' or s.id in seen:
+                continue
+            rec(s, acc + [(n, lab)], seen | {s.id})
+    rec(c.entry, [], {c.entry.id})
+    return out
